@@ -94,9 +94,45 @@ def points_for(path, big):
     return big
 
 
-def loop_program(path, variant, points, control=None):
-    """-> Scheme expression (a let () body) evaluating to (result (samples...))"""
+def loop_program(path, variant, points, control=None, skel="else"):
+    """-> Scheme expression (a let () body) evaluating to (result (samples...)).
+    skel: which arm of the loop's own exit test holds the contexts ("else": (if (>= i n) 'done <ctx>),
+    "then": (if (< i n) <ctx> 'done)) -- so that a defect of one arm is not shared by every program"""
     n = points[-1] + 1
+    return _skel(_loop_program(path, variant, points, control, n), skel)
+
+
+def _skel(text, skel):
+    if skel == "else":
+        return text
+    # rewrite the exit tests (if (>= i n) 'done X) -> (if (< i n) X 'done); X is balanced text up to the closing paren
+    out = []
+    pos = 0
+    key = "(if (>= i n) 'done "
+    while True:
+        j = text.find(key, pos)
+        if j < 0:
+            out.append(text[pos:])
+            break
+        out.append(text[pos:j])
+        k = j + len(key)
+        depth = 0
+        m = k
+        while True:
+            ch = text[m]
+            if ch == "(":
+                depth += 1
+            elif ch == ")":
+                if depth == 0:
+                    break
+                depth -= 1
+            m += 1
+        out.append("(if (< i n) " + text[k:m].strip() + " 'done)")
+        pos = m + 1
+    return "".join(out)
+
+
+def _loop_program(path, variant, points, control, n):
     note = ("(define (note i) (if (or %s) (set! samples (cons (stack-top) samples))))"
             % " ".join("(= i %d)" % p for p in points))
 
@@ -189,17 +225,16 @@ def run_tail(rep, b, hdr, progs, env, known_culprits):
 def judge_tail(rep, p, r, single_fail):
     """single_fail: set of single contexts that fail on their own (gives the `culprit` field)"""
     path = p["path"]
-    culprits = sorted(set(path) & single_fail)
-    sig = {"kind": "tail-loop", "ctx": ">".join(path), "call": p["variant"],
+    culprits = sorted((set(path) | {"skeleton-" + p["skel"]}) & single_fail)
+    sig = {"kind": "tail-loop", "ctx": ">".join(path) or "-", "call": p["variant"], "skel": p["skel"],
            "culprit": "+".join(culprits) if culprits else "composition"}
     wit = {"form": p["form"], "expected": "(done (s s s)) with equal stack-top samples at iterations %s" % (p["points"],)}
     if r is None or r.status == "missing":
         rep.inconc("no-output", p["id"])
         return None
     if r.status == "timeout":
-        wit["detail"] = r.detail
-        rep.violation(dict(sig, mode="does-not-finish"), wit)
-        return False
+        rep.inconc("timeout", {"ctx": path, "call": p["variant"]})      # wall clock never decides
+        return None
     if r.status == "crash":
         wit["detail"] = r.detail
         rep.violation(dict(sig, mode="out-of-stack" if _stderr_oos(r.detail) else "crash"), wit)
@@ -257,17 +292,24 @@ def check(rep, tier, seed, variant="hooks"):
     # ------------------------------------------------------------------ parts A and B
     progs = []
 
-    def add(path, var, points=None, control=None, tag="t"):
+    def add(path, var, points=None, control=None, tag="t", skel=None):
         pts = points or points_for(path, big)
         if control:
             pts = (10, 1000, 10000)
         pid = "%s%d" % (tag, len(progs))
-        progs.append({"id": pid, "path": tuple(path), "variant": var, "points": pts, "control": control,
-                      "form": loop_program(path, var, pts, control)})
+        skel = skel or rng.choice(["then", "else"])
+        progs.append({"id": pid, "path": tuple(path), "variant": var, "points": pts, "control": control, "skel": skel,
+                      "form": loop_program(path, var, pts, control, skel)})
     for nme in names:                                   # every single context x every call variant
         for var in VARIANTS:
-            add([nme], var)
-    add([], "direct")                                    # the bare loop
+            if var == "direct":
+                add([nme], var, skel="then")
+                add([nme], var, skel="else")
+            else:
+                add([nme], var)
+    for var in VARIANTS:                                 # the bare loops (no context): both skeletons
+        add([], var, skel="then")
+        add([], var, skel="else")
     for a, c in itertools.product(names, names):        # every ordered pair
         add([a, c], rng.choice(["direct", "direct", "mutual2", "apply", "rest-callee", "named-let"]))
     if not quick:
@@ -287,15 +329,20 @@ def check(rep, tier, seed, variant="hooks"):
     results, procs = run_tail(rep, b, hdr, progs, env, None)
     single_fail = set()
     for pid, (p, r) in results.items():
+        if p["control"] is None and p["variant"] == "direct" and not tail_ok_quiet(r, len(p["points"])):
+            if len(p["path"]) == 0:
+                single_fail.add("skeleton-" + p["skel"])
+    for pid, (p, r) in results.items():
         if p["control"] is None and len(p["path"]) == 1 and p["variant"] == "direct" and not tail_ok_quiet(r, len(p["points"])):
-            single_fail.add(p["path"][0])
+            if "skeleton-" + p["skel"] not in single_fail:
+                single_fail.add(p["path"][0])
     held = 0
     grow_seen = 0
     per_frame = []
     for p in progs:
         _, r = results[p["id"]]
         if p["control"] is None:
-            rep.case(("tail", p["path"], p["variant"], p["points"][-1]))
+            rep.case(("tail", p["path"], p["variant"], p["skel"], p["points"][-1]))
             if judge_tail(rep, p, r, single_fail):
                 held += 1
             continue
@@ -537,7 +584,7 @@ def check(rep, tier, seed, variant="hooks"):
             rep.count("heap_objects_checked", d.get("objects", 0))
     for p in progs[:2] + [q for q in progs if len(q["path"]) == 2][:3] + [q for q in progs if q["control"]][:2]:
         _, r = results[p["id"]]
-        rep.sample({"contexts": p["path"], "call": p["variant"], "control": p["control"], "form": p["form"],
+        rep.sample({"contexts": p["path"], "call": p["variant"], "skeleton": p["skel"], "control": p["control"], "form": p["form"],
                     "observed": r.text.strip()[:200] if r is not None else None})
     rep.extra["processes"] = len(procs)
     rep.rule = ("tail loops: one case = one loop program = (composition of R7RS 3.5 tail contexts, call variant), "
